@@ -120,3 +120,9 @@ pub type IntPoint = euclid::default::Point2D<i32>;
 pub type Point = euclid::default::Point2D<f32>;
 pub type Transform = euclid::default::Transform2D<f32>;
 pub type Vector = euclid::default::Vector2D<f32>;
+
+/// Verification hooks; compiled only with `--cfg raqote_verif`.
+#[cfg(raqote_verif)]
+pub mod verif {
+    pub use crate::dash::dash_path;
+}
